@@ -34,7 +34,7 @@ static long vnow = 1000;	/* virtual clock for files written by the driver */
 
 /* ---- remembered per program: patch list of the last save ------------------ */
 #define MAXP 64
-static struct { char name[256]; unsigned short patch[256]; int npatch; int known; } P[MAXP];
+static struct { char name[256]; unsigned short patch[256]; int npatch; int known; int from_binary; } P[MAXP];
 static int nP = 0;
 
 static int pslot (const char *name, int create)
@@ -47,6 +47,7 @@ static int pslot (const char *name, int create)
   snprintf (P[nP].name, sizeof P[nP].name, "%s", name);
   P[nP].npatch = 0;
   P[nP].known = 0;
+  P[nP].from_binary = 0;
   return nP++;
 }
 
@@ -92,6 +93,18 @@ program_t *load_binary (const char *name)
     vh_out ("lb %s needs %s", name, inherit_file);
   else
     vh_out ("lb %s stale", name);
+  if (p || !inherit_file)
+    {
+      /* where the dump will find the patch list of the program that is about to be in memory: in the binary when the
+         program came from it; otherwise only a save_binary() call of the coming compile can tell (a binary that is
+         still on disk then is a leftover of an older compile) */
+      int s = pslot (name, 1);
+      if (s >= 0)
+        {
+          P[s].known = 0;
+          P[s].from_binary = p != 0;
+        }
+    }
   return p;
 }
 
@@ -101,6 +114,21 @@ void save_binary (program_t * prog, mem_block_t * includes, mem_block_t * patche
   struct stat st;
   c17_real_save_binary (prog, includes, patches);
   bin_path (path, sizeof path, prog->name);
+  {
+    /* the patch list of the program just compiled (also when the master refuses the save or save_binary() declines) */
+    int s = pslot (prog->name, 1);
+    if (s >= 0)
+      {
+        int n = (int) (patches->current_size / sizeof (short));
+        if (n > 256)
+          n = 256;
+        P[s].npatch = n;
+        P[s].known = 1;
+        P[s].from_binary = 0;
+        for (int i = 0; i < n; i++)
+          P[s].patch[i] = ((unsigned short *) patches->block)[i];
+      }
+  }
   if (stat (path, &st) == 0 && st.st_mtime > REAL_T)
     {
       int s = pslot (prog->name, 1);
@@ -429,9 +457,9 @@ static void dump_prog (const char *tag, program_t * p)
   /* code: string switch tables dumped entry by entry, then masked out of the hash */
   {
     int s = pslot (p->name, 0);
-    if (s < 0 || !P[s].known)
+    if (s >= 0 && !P[s].known && P[s].from_binary)
       {
-        /* not saved by this process: take the patch list from the binary, like the driver does */
+        /* loaded from its binary: take the patch list from the binary, like the driver does */
         static unsigned short tmp[256];
         int np = patches_from_binary (p->name, tmp, 256);
         if (np >= 0 && (s = pslot (p->name, 1)) >= 0)
